@@ -12,6 +12,7 @@ mod rdata_drv;
 mod reader_drv;
 mod rrl_drv;
 mod server_drv;
+mod snapshot_drv;
 mod tsiglib_drv;
 mod writer_drv;
 mod zone_drv;
@@ -36,6 +37,7 @@ fn main() {
         "rrl" => rrl_drv::main(&args[1..]),
         "pool" => pool_drv::main(&args[1..]),
         "io" => io_drv::main(&args[1..]),
+        "snapshot" => snapshot_drv::main(&args[1..]),
         "zonefile" => zonefile_drv::main(&args[1..]),
         d => {
             eprintln!("unknown driver {}", d);
